@@ -220,6 +220,20 @@ MUTANTS = [
  ("c17-borrow-limit-gt", M+"state/bank.rs",
   "            if total_liability_amount >= borrow_limit {",
   "            if total_liability_amount > borrow_limit + I80F48::ONE {", ["C17"]),
+ ("c05-emode-maint-uses-init-weight", M+"state/marginfi_account.rs",
+  """                            RequirementType::Maintenance => {
+                                I80F48::from(emode_entry.asset_weight_maint)
+                            }""",
+  """                            RequirementType::Maintenance => {
+                                I80F48::from(emode_entry.asset_weight_init)
+                            }""", ["C05"]),
+ ("c05-emode-ignored-at-maintenance", M+"state/marginfi_account.rs",
+  """                            RequirementType::Maintenance => {
+                                I80F48::from(emode_entry.asset_weight_maint)
+                            }""",
+  """                            RequirementType::Maintenance => {
+                                I80F48::ZERO
+                            }""", ["C05"]),
 ]
 
 def sh(cmd, **kw):
